@@ -3,6 +3,7 @@ import GdcVerif.Model.J2kTiles
 import GdcVerif.Model.J2kSample
 import GdcVerif.Model.J2kLossless
 import GdcVerif.Model.J2kTagTree
+import GdcVerif.Model.J2kPacketHeader
 /-! Line-protocol ops for the JPEG 2000 pipeline-logic checks C19 / C04 / C05. -/
 namespace Drv.J2k
 open Drv
@@ -42,11 +43,43 @@ def ttDecRun (w h : Nat) : List (List Nat) → J2kTT.TTDec → List Bool → Lis
     | some (s', v, bits') => ttDecRun w h rest s' bits' (acc ++ [v])
   | _, _, _, _ => none
 
+/-- one layer of contributions: "np:len,x,np:len" (x = not included) -/
+def parseContribs (s : String) : Option (List J2kPH.Contrib) :=
+  (s.splitOn ",").mapM fun t =>
+    if t = "x" then some none else
+    match (t.splitOn ":").mapM String.toNat? with
+    | some [np, len] => some (some (np, len))
+    | _ => none
+
+def inclStr (i : J2kPH.Incl) : String := if i.included then s!"{i.numPasses}:{i.dataLength}:{i.zbp}" else "x"
+
+/-- all layers of one single-band precinct: header bytes per layer (encoder model) and what the decoder model reads
+    back from those bits -/
+def pktRun (layer : Nat) : List (List J2kPH.Contrib) → List J2kPH.BandE → List J2kPH.BandD → List String → List String →
+    Option (List String × List String)
+  | [], _, _, hs, ds => some (hs.reverse, ds.reverse)
+  | c :: cs, be, bd, hs, ds =>
+    let r := J2kPH.encHeader layer be [c]
+    match J2kPH.decHeader layer bd r.2 with
+    | none => none
+    | some (bd', outs, rest) =>
+      let d := match outs with
+        | none => "empty"
+        | some oss => ",".intercalate ((oss.getD 0 []).map inclStr) ++ s!"/{rest.length}"
+      pktRun (layer + 1) cs r.1 bd' (bytesToHex (J2kPH.headerBytes r.2) :: hs) (d :: ds)
+
 /-- optional integer token: "x" = key absent -/
 def optInt (s : String) : Option (Option Int) := if s = "x" then some none else (s.toInt?).map some
 def optBool (s : String) : Option (Option Bool) := if s = "x" then some none else (s.toInt?).map fun v => some (v != 0)
 
 def step? : List String → Option String
+  | ["j2k-pkthdr", w, h, cbs, layers] => some <| match nats? [w, h], parseTriples cbs, (layers.splitOn "|").mapM parseContribs with
+    | some [w, h], some cbs, some ls =>
+      let tri := cbs.filterMap fun t => match t with | [x, y, z] => some (x, y, z) | _ => none
+      match pktRun 0 ls [J2kPH.BandE.fresh w h tri] [J2kPH.BandD.fresh w h tri] [] [] with
+      | some (hs, ds) => "ok " ++ " ".intercalate hs ++ " | " ++ " ".intercalate ds
+      | none => "err"
+    | _, _, _ => "bad-op"
   | ["j2k-gparams", lv, mct, rate, levels, prog, ly, trn, trd, pcrd, app, bs, ba] =>
     some <| match optInt lv, optBool mct, optInt rate, optInt prog, optInt ly, optInt trn, optBool pcrd, optBool app,
         ints? [trd, bs, ba], (if levels = "x" then some none else (parseInts levels).map some) with
